@@ -22,12 +22,15 @@ import (
 func init() { register("C13", checkC13) }
 
 func checkC13(c *vh.Ctx) {
-	c.Res.Rule = "crop files: every shipped classic file vs its shipped YAML and vs the YAML written by the built converter, plus generated variants of every shipped file, complete state dumps after reading from three prior states (fresh, after another crop, permanent-crop repeat); soils/measurement sets/weather series: generated content written in both (three) encodings through the real readers, complete dumps compared; paired whole runs of generated projects per encoding dimension (soil, rotation, measurement file, weather layout, date format, crop parameter format) with byte comparison of the captured result files; non-trivial = distinct (file, prior) / generated content / project x dimension"
+	c.Res.Rule = "crop files: every shipped classic file vs its shipped YAML and vs the YAML written by the built converter, plus generated variants of every shipped file, complete state dumps after reading from three prior states (fresh, after another crop, permanent-crop repeat); soils/measurement sets/weather series: generated content written in both (three) encodings through the real readers, complete dumps compared; paired whole runs of generated projects per encoding dimension (soil, rotation, measurement file, weather layout, date format, crop parameter format) with byte comparison of the captured result files; date formats at the century split (DivideCentury on, one above and one below the two-digit years of the start / schedule / end dates, with and without a virtual prediction date; LangTagConverter on every split); session sequences: lines of one session selecting different encodings of the same project, sequential and concurrent, each against its solo run; non-trivial = distinct (file, prior) / generated content / project x dimension"
 	c13CropFiles(c)
 	c13Soil(c)
 	c13Measure(c)
 	c13Weather(c)
 	c13WholeRuns(c)
+	c13DateSplit(c)
+	c13LangTag(c)
+	c13Session(c)
 }
 
 // ---------------------------------------------------------------- crop files
